@@ -22,8 +22,8 @@ from . import core, proj
 
 PROBES = {
     'plain': 'hello world again and again\n',
-    'setext': 'Foo\n---\n\nBar\n===\n',
-    'composite': ('Setext one\n---\n\n# ATX after `code` &amp; &copy; [ref] [ent]\n\n> quote with `span`\n> Foo\n> ---\n\n'
+    'setext': 'Foo\n---\n\nBar\n===\n\n###\n\n    code\n',
+    'composite': ('Setext one\n---\n\n# ATX after `code` &amp; &copy; [ref] [ent]\n\n> quote with `span`\n> Foo\n> ---\n\n>\n\n-\n\n## closed ##\n\n##\n\n'
                   'hello `code` world <b>raw</b> $x$ [[a|b]] \\* *em* {{m}}\n\n~~~py\nfence\n~~~\n\n<div>\nhtml block\n</div>\n\n'
                   '- item `c`\n\n    indented\n\n| a | b |\n|---|---|\n| 1 | 2 |\n\n[ref]: /url "title"\n[ent]: /u&ouml "t&copy"\n'),
 }
@@ -63,7 +63,8 @@ def fresh(job):
     p = subprocess.run([sys.executable, '-c', FRESH_SCRIPT, core.REPO, core.VERIF, json.dumps(job)], stdout=subprocess.PIPE,
                        stderr=subprocess.PIPE, env=dict(os.environ, PYTHONHASHSEED='0'), timeout=120)
     if p.returncode != 0:
-        return 'FRESH-EXCEPTION ' + p.stderr.decode(errors='replace').strip().splitlines()[-1][:200]
+        last = (p.stderr.decode(errors='replace').strip().splitlines() or ['?'])[-1]
+        return 'EXCEPTION ' + last.split(':')[0].split('.')[-1].strip()
     return json.loads(p.stdout.decode())
 
 
@@ -317,9 +318,10 @@ def run():
                     'the model state; long random histories from TLC -simulate; distinct = distinct histories; non-trivial = history has >= 2 operations')
     quick = ck.tier == 'quick'
     _FT = fresh_table()
-    bad_fresh = [k for k, v in _FT.items() if isinstance(v, str) and v.startswith('FRESH-EXCEPTION')]
-    if bad_fresh:
-        raise core.MachineryError('fresh interpreter failed for %s: %s' % (bad_fresh[0], _FT[bad_fresh[0]]))
+    bad_fresh = [k for k, v in _FT.items() if isinstance(v, str) and v.startswith('EXCEPTION')]
+    if len(bad_fresh) == len(_FT):
+        raise core.MachineryError('every fresh interpreter failed: %s' % _FT[bad_fresh[0]])
+    ck.extra['fresh_interpreter_calls_that_raised'] = bad_fresh      # totality is C01's business; here only equality with the in-history result counts
     recs = explore(ck, 'Registry.cfg' if quick else 'Registry4.cfg')
     n_full = len(recs)
     recs += explore(ck, 'RegistryView5.cfg' if quick else 'RegistryView7.cfg')
